@@ -38,22 +38,24 @@ from props import C01 as base
 ID = 'C11'
 LEVEL = 'exploration'
 P_TARGETS = []
-BUDGET = {'quick': 33.0, 'thorough': 300.0}
+BUDGET = {'quick': 33.0, 'thorough': 400.0}
 CHUNK = 50
 BOUNDS = {
     'quick': {
         'descriptions': 'every partition of every C N O molecule with <= 3 heavy atoms, of the carbon skeletons and ring probes with 4, '
-                        'and 3 seeded partitions (plus bridge-bond and trivial ones, <= 6 fragments) of each of the 43 library molecules',
+                        'and 2 seeded partitions (plus bridge-bond and trivial ones, <= 5 fragments) of each of the 43 library molecules',
         'virtual_nodes': 'node listing: virtual first, and one of {last, second, first with reals reversed} in turn (thorough: all four); 1 virtual node attached to each single real node; attached to each pair of '
                          'real nodes; 2 virtual nodes (chained, or attached apart); 3 chained; each also combined with an order-0 '
                          'edge between two non-bonded real nodes when the base graph has such a pair',
-        'constructors': 'from_string for every variant, from_graph additionally for every third', 'thinning': 'descriptions with 4 or more heavy atoms take every second variant, those with 4 or more fragments every third',
+        'constructors': 'from_string for every variant, from_graph additionally for every fourth', 'thinning': 'hetero molecules with 3 heavy atoms take every second variant, descriptions with 4 or more heavy atoms or fragments every third',
         'zero_family': 'each base-graph edge of each description set to order 0 (non-aromatic cuts)',
         'neg_family': 'one virtual node with an edge of order 1, 2, 3, 4 (alone, or next to an order-0 edge)'},
     'thorough': {
-        'descriptions': 'as quick plus every C N O Cl [N+] [O-] molecule with <= 3 and every C N O molecule with 4 heavy atoms, 2 renderings, '
-                        '20 seeded partitions per library molecule',
-        'virtual_nodes': 'as quick', 'constructors': 'both for every variant', 'zero_family': 'as quick', 'neg_family': 'as quick'},
+        'descriptions': 'as quick plus every C N O Cl [N+] [O-] molecule with <= 3 (2 renderings) and every C N O molecule with 4 heavy atoms '
+                        '(1 rendering), 20 seeded partitions per library molecule',
+        'virtual_nodes': 'as quick; all four node listings for descriptions with <= 3 heavy atoms, two for larger ones, which also take every '
+                         'second variant', 'constructors': 'both for every variant', 'zero_family': 'as quick',
+        'neg_family': 'orders 1-4 x {alone, next to an order-0 edge} x {virtual first, last} up to 3 heavy atoms, thinned as in quick above'},
 }
 EXHAUSTIVE = {'quick': False, 'thorough': False}
 RULE = ('description (molecule x partition x rendering) x insertion variant (see BOUNDS); the list of variants is exhaustive for the '
@@ -107,12 +109,12 @@ def _descriptions(tier, seed):
         if not base._valid(mol):
             continue
         for part in g2.connected_partitions(mol):
-            for r in g2.covering_renderings(mol, part, 1 if quick else 2, rng):
+            for r in g2.covering_renderings(mol, part, 1 if (quick or len(mol['a']) > 3) else 2, rng):
                 yield mol, part, r, None
     for smi, mol in g2.library():
         prng = random.Random(seed * 17 + sum(map(ord, smi)))
-        for part in g2.sampled_partitions(mol, prng, 3 if quick else 20):
-            if max(part) + 1 > 6:
+        for part in g2.sampled_partitions(mol, prng, 2 if quick else 20):
+            if max(part) + 1 > (5 if quick else 6):
                 continue
             yield mol, part, next(g2.covering_renderings(mol, part, 1, prng)), smi
 
@@ -128,20 +130,24 @@ def cases(tier, seed):
         nf = max(part) + 1
         plan = g2.make_fragments(mol, part)
         vlist = variants(nf, plan['edges'])
+        if not quick and len(mol['a']) >= 4:
+            vlist = vlist[(len(mol['b']) % 2)::2]
         if quick and nf >= 4:
             vlist = vlist[(len(mol['a']) % 3)::3]
         elif quick and len(mol['a']) >= 4:
-            vlist = vlist[(len(mol['b']) % 2)::2]
+            vlist = vlist[(len(mol['b']) % 3)::3]
+        elif quick and len(mol['a']) == 3 and any(a[0] != 'C' for a in mol['a']):
+            vlist = vlist[(sum(map(ord, mol['a'][0][0] + mol['a'][2][0])) % 2)::2]
         for virt, tag in vlist:
             prios = _priorities(nf, virt['n'], rng)
-            if quick and len(prios) > 2:
+            if (quick or len(mol['a']) > 3) and len(prios) > 2:
                 # 'first' always (a virtual node in front of every real node), one of the others in turn
                 prios = [prios[0], prios[1 + count % (len(prios) - 1)]]
             for ptag, prio in prios:
                 if virt['n'] == 0 and ptag != 'first':
                     continue
                 count += 1
-                ctors = ['string', 'graph'] if (not quick or count % 3 == 0) else ['string']
+                ctors = ['string', 'graph'] if (not quick or count % 4 == 0) else ['string']
                 for ctor in ctors:
                     rr = dict(r)
                     rr['base'] = prio
@@ -161,10 +167,11 @@ def cases(tier, seed):
             for extra in ((), ((nf, (nf - 1), 0),)):
                 if extra and nf < 2:
                     continue
-                if quick and bool(extra) != bool((k + count) % 2):
+                thin = quick or len(mol['a']) > 3
+                if thin and bool(extra) != bool((k + count) % 2):
                     continue
                 edges = [[nf, 0, k]] + [list(e) for e in extra]
-                for ptag, prio in _priorities(nf, 1, rng)[:2][(k % 2 if quick else 0):(k % 2 + 1 if quick else 2)]:
+                for ptag, prio in _priorities(nf, 1, rng)[:2][(k % 2 if thin else 0):(k % 2 + 1 if thin else 2)]:
                     rr = dict(r)
                     rr['base'] = prio
                     rr['ctor'] = 'string' if k % 2 else 'graph'
@@ -268,6 +275,9 @@ def check_case(case):
              % (text, {built['names'][n]: k for n, k in key_of.items()},
                 sorted((d['element'], d['mem']) for _, d in h.nodes(data=True)),
                 sorted((d['element'], d['mem']) for _, d in want.nodes(data=True))))
+    if fails:
+        # the coarse-node and metamorphic clauses below restate the same fault; one failure per case keeps replays small
+        return Outcome(text, True, fails)
     # (b) coarse node graphs
     for k in coarse.nodes:
         gk = coarse.nodes[k].get('graph')
